@@ -244,6 +244,11 @@ def registry_snapshot(f, e, depth=0):
     return False
 
 
+def _in_ctor_step(prog, calls, m, call):
+    steps = calls.with_private_helpers({find_method(prog, "validators.RefResolver", "__init__")})
+    return any(f.mod is m and any(x is call for x in walk_body(f)) for f in steps)
+
+
 def _init_sem(ctx):
     from .ressem import init_eval
     if "_initsem" not in ctx.extra:
@@ -398,6 +403,7 @@ def rule_uridict(ctx, rid="R15.5"):
     else:
         r.fail("_utils.URIDict.normalize|shape", site(nm) if nm else "URIDict", "normalize is not urlsplit(uri).geturl()")
     # constructor call sites
+    isem = _init_sem(ctx)
     n_sites = 0
     for m in prog.mods.values():
         for n in ast.walk(m.tree):
@@ -408,6 +414,10 @@ def rule_uridict(ctx, rid="R15.5"):
                     r.ok(where, "URIDict() empty")
                 elif len(n.args) == 1 and not n.keywords and _site_snapshot(prog, m, n):
                     r.ok(where, "entries drawn from another URIDict's items(): keys already normal")
+                elif _in_ctor_step(prog, calls, m, n) and isem and "raises" not in isem and isem["seed"] is None and isem["seed-order"] is None:
+                    # however the initial entries are assembled: resolvers built inside the definitional interpreter find registered
+                    # metaschemas and caller-supplied entries (one written with an empty fragment) under their normal keys
+                    r.ok(where, "[semantic] in the resolver constructor: every seeded entry is found under its normalised URI")
                 else:
                     r.fail("%s|URIDict-raw-entries|%s" % (m.name, norm(n)[:60]), where, "URIDict constructed with raw keys (the constructor does not normalise): %s" % norm(n)[:80])
     if n_sites < 2:
@@ -461,6 +471,26 @@ def rule_handler_selection(ctx, rid="R15.7"):
     f = find_method(prog, "validators.RefResolver", "resolve_remote")
     cfg = cfg_of(f)
     r = ctx.rule(rid, "a registered handler for the scheme wins; requests only for http(s); urlopen otherwise", floor=2)
+    sem = ctx.extra.get("_selection_sem", 0)
+    if sem == 0:
+        from .ressem import selection_eval
+        try:
+            sem = selection_eval(prog)
+        except RecursionError:
+            sem = None
+        ctx.extra["_selection_sem"] = sem
+    if sem is not None:
+        texts = {"handler-first": "a handler registered for the URL's scheme is the only retriever asked, with the URL as given (7 schemes x 5 handler tables x requests present/absent)",
+                 "requests-http-only": "without a handler, requests serves http and https only, and only when importable",
+                 "urlopen-otherwise": "every other case goes to urlopen, the body decoded as UTF-8 JSON",
+                 "filed": "the document is filed under the URL exactly when cache_remote is on",
+                 "raises": "evaluates without an unexpected exception"}
+        for clause, msg in sorted(sem.items()):
+            if msg is None:
+                r.ok(site(f), "[semantic] %s" % texts.get(clause, clause))
+            else:
+                r.fail("%s|semantic|%s" % (f.qual, clause), site(f), msg)
+        return r
     hn = [n for n in cfg.live for (c, tg) in calls_at(calls, f, n) if any(t.kind == "dynamic" and t.name == "handler" for t in tg)]
     tests = [(n, "true" if isinstance(n.ast.ops[0], ast.In) else "false") for n in cfg.live
              if n.kind == "test" and isinstance(n.ast, ast.Compare) and isinstance(n.ast.ops[0], (ast.In, ast.NotIn))
